@@ -90,6 +90,23 @@ def body_interleave(c0, c1, tA, bodyA, opB, tB, bodyB, at):
     final = mstore.observe(mstore.open_store(kind, _store.PATH))
     final_a = mstore.observe(storeA)  # what the long-lived store object of A serves afterwards (caches!)
     ctx.LAST_INFO = {"where": where, "fired": fired, "trace": trace}
+    if len(trace) > ctx.b.kmax:
+        return (False, "kmax-too-small")  # accesses of A beyond kmax would never be preempted: raise the bound
+
+    def weak_ok():
+        """What must hold even inside a known-finding window (the recorded defects lose an update or skip a
+        precondition; they never corrupt the repository, never make the long-lived store object disagree with a
+        fresh one, and never end in an unexpected exception)."""
+        # (the tree finding's recorded signature includes a delete that finds its file already unlinked)
+        tolerated = {"A": "error:FileNotFoundError"} if (kind == "tree" and opA in (2, 3)) else {}
+        good = not any(str(v).startswith("error:") and tolerated.get(x) != v for x, v in res.items())
+        good = good and {n: d for n, (e, d) in final_a.items()} == {n: d for n, (e, d) in final.items()}
+        if kind != "vdir":
+            good = good and not mstore.dangling(_store.PATH)
+        if kind == "tree":
+            disk = {n: w.files.get(_store.PATH + "/" + n) for n in w.listdir(_store.PATH) if n != ".git"}
+            good = good and disk == {n: data for n, (etag, data) in final.items()}
+        return good
 
     # ---- known findings: narrow classes over the recorded call-site observation (where the intruder ran)
     if where == "inside":
@@ -102,14 +119,14 @@ def body_interleave(c0, c1, tA, bodyA, opB, tB, bodyB, at):
             uB = SP.uid(nB, bodyB) if opB in (0, 1) else None
             related = nA == nB or (uA is not None and uA == uB)
             if ctx.kf("C05-tree-check-then-act") and related and idx > 1 and (lock_at is None or idx <= lock_at):
-                return (True, "known")
+                return (weak_ok(), "known")
         else:
             # bare store: the head read inside do_commit is the last ref-read before the compare-and-set
             cas = [i for i, k in enumerate(trace) if k == "ref-cas"]
             reads = [i for i, k in enumerate(trace) if k == "ref-read" and (not cas or i < cas[0])]
             head_read = reads[-1] + 1 if (cas and reads) else None
             if ctx.kf("C05-bare-stale-tree") and idx > 1 and (head_read is None or idx <= head_read):
-                return (True, "known")
+                return (weak_ok(), "known")
 
     # ---- oracle: some serial order of the operations that were not refused as locked
     ran = [x for x in ("A", "B") if res[x] != "locked"]
@@ -190,6 +207,18 @@ def body_interleave3(c0, c1, tA, bodyA, opB, tB, bodyB, opC, tC, bodyC, at1, at2
     final = mstore.observe(mstore.open_store(kind, _store.PATH))
     # known-finding classes (same call-site predicates as for two operations, for every intrusion that happened)
     ops = {"A": (opA, nA, bodyA), "B": (opB, nB, bodyB), "C": (opC, nC, bodyC)}
+    def weak_ok3():
+        tolerated = "error:FileNotFoundError" if (kind == "tree" and opA in (2, 3)) else None
+        good = not any(str(v).startswith("error:") and not (x == "A" and v == tolerated) for x, v in res.items())
+        if kind != "vdir":
+            good = good and not mstore.dangling(_store.PATH)
+        if kind == "tree":
+            disk = {n: w.files.get(_store.PATH + "/" + n) for n in w.listdir(_store.PATH) if n != ".git"}
+            good = good and disk == {n: data for n, (etag, data) in final.items()}
+        return good
+
+    if len(trace) > ctx.b.kmax:
+        return (False, "kmax-too-small")
     for idx in fired:
         if kind == "tree":
             lock_at = trace.index("lock-create") + 1 if "lock-create" in trace else None
@@ -200,13 +229,13 @@ def body_interleave3(c0, c1, tA, bodyA, opB, tB, bodyB, opC, tC, bodyC, at1, at2
                 ux = SP.uid(nx, bx) if ox in (0, 1) else None
                 related = related or nA == nx or (uA is not None and uA == ux)
             if ctx.kf("C05-tree-check-then-act") and related and idx > 1 and (lock_at is None or idx <= lock_at):
-                return (True, "known")
+                return (weak_ok3(), "known")
         else:
             cas = [i for i, k in enumerate(trace) if k == "ref-cas"]
             reads = [i for i, k in enumerate(trace) if k == "ref-read" and (not cas or i < cas[0])]
             head_read = reads[-1] + 1 if (cas and reads) else None
             if ctx.kf("C05-bare-stale-tree") and idx > 1 and (head_read is None or idx <= head_read):
-                return (True, "known")
+                return (weak_ok3(), "known")
     ran = [x for x in ("A", "B", "C") if res[x] != "locked"]
     ok = False
     for order in itertools.permutations(ran):
@@ -272,12 +301,14 @@ def real_interleave(args, part):
 
 _B = {"quick": {"blen": 2, "kmax": 40}, "thorough": {"blen": 2, "kmax": 40}}
 _PARTS = [(k, same, opA) for k in ("tree", "bare") for same in (True, False) for opA in (0, 1, 2)]
+_PARTS_T = [(k, same, opA) for k in ("tree", "bare") for same in (True, False) for opA in (0, 1, 2, 3)]
 
 HARNESSES = [
     Harness("interleave", h_interleave, body_interleave,
             classes=[("inside:contended", ("tree", False, 0)), ("inside:both-ran", ("tree", True, 0)),
                      ("after:both-ran", ("bare", False, 2)), ("inside:contended", ("bare", False, 0))],
-            parts={"quick": _PARTS}, bounds=_B, budget={"quick": 90, "thorough": 600}, real_replay=real_interleave,
+            parts={"quick": _PARTS, "thorough": _PARTS_T}, bounds=_B, budget={"quick": 90, "thorough": 600},
+            real_replay=real_interleave,
             describe="operation A with an atomic intrusion of operation B at every shared-state access; part = "
                      "(back end, same store object?, kind of A)",
             encodes=_store.STEP_ENCODES),
